@@ -7,7 +7,9 @@ From Coq Require Import ZArith List Bool.
 From Coq Require String.
 From Coq.Strings Require Import Byte.
 From Verif Require Import Lib.Bytes Gen.GenConsts Gen.GenNetworks Crypto.Sha256 Model.Base58 Model.KeyFormat
-  Proofs.KeyFormatBase Proofs.KeyFormatWif Proofs.KeyFormatXkey Proofs.KeyFormatFinal.
+  Model.SpecNetworks Proofs.SpecNetworksGlue
+  Proofs.KeyFormatBase Proofs.KeyFormatWif Proofs.KeyFormatXkey Proofs.KeyFormatFinal
+  Proofs.KeyFormatSpecTable Proofs.KeyFormatSession.
 Import ListNotations.
 Import Coq.Strings.String.StringSyntax.
 Open Scope Z_scope.
@@ -295,6 +297,194 @@ Theorem bip38_payloads_start_6P : forall v,
   (5 * 58 + 22) * 58 ^ 56 <= v < (5 * 58 + 23) * 58 ^ 56.
 Proof. exact bip38_range. Qed.
 
+
+(* ================= the prefix table against the frozen specification ================= *)
+(* Model/SpecNetworks.v is a frozen copy of the chain parameters (Bitcoin / Litecoin / Dogecoin Core chainparams, SLIP-0132
+   version bytes), never regenerated.  The rows the round trips above quantify over — regenerated from
+   bitcoinlib/data/networks.json on every run — are those rows: version bytes, label, private?, multisig?, witness type and
+   script type of every prefixes_wif row of every network, in order; the WIF version bytes; the names and the priorities
+   (network_by_value orders the candidates of a shared prefix by priority).  Closed by the glue lemmas
+   (Proofs/SpecNetworksGlue.v, vm_compute over both tables): an edited row breaks these obligations. *)
+Theorem prefixes_wif_rows_are_frozen_spec :
+  map (fun n => (nw_name n, map proj_wif_row (nw_prefixes_wif n))) all_networks =
+  map (fun s => (sn_name s, sn_prefixes_wif s)) spec_networks.
+Proof. exact c12_prefixes_wif_frozen. Qed.
+
+Theorem wif_version_bytes_are_frozen_spec :
+  map (fun n => (nw_name n, nw_prefix_wif n)) all_networks = map (fun s => (sn_name s, sn_prefix_wif s)) spec_networks.
+Proof. exact c12_wif_versions_frozen. Qed.
+
+Theorem network_priorities_are_frozen_spec :
+  map (fun n => (nw_name n, nw_priority n, nw_currency_code n)) all_networks =
+  map (fun s => (sn_name s, sn_priority s, sn_currency_code s)) spec_networks.
+Proof. exact c12_priorities_frozen. Qed.
+
+Theorem network_names_are_frozen_spec : map nw_name all_networks = map sn_name spec_networks.
+Proof. exact c12_names_frozen. Qed.
+
+(* the flattened regenerated table, row by row, is the flattened frozen table *)
+Theorem all_rows_are_frozen_rows : map proj_match all_rows = spec_rows.
+Proof. exact all_rows_are_spec_rows. Qed.
+
+(* SLIP-0132, proved on the frozen table and carried over: on bitcoin / testnet / testnet4 / signet / regtest /
+   bitcoinlib_test a version-bytes prefix stands for ONE witness type in the whole table and, outside the legacy rows
+   (xpub / tpub serve single-signature and multisig keys alike), for ONE multisig flag *)
+Theorem slip132_prefix_determines_metadata : forall m m', In m all_rows -> In m' all_rows ->
+  wr_prefix (hm_row m) = wr_prefix (hm_row m') -> slip132_network (hm_network m) = true ->
+  wr_witness_type (hm_row m') = wr_witness_type (hm_row m) /\
+  (is_legacy (wr_witness_type (hm_row m)) = false -> wr_multisig (hm_row m') = wr_multisig (hm_row m)).
+Proof. exact slip132_prefix_exact. Qed.
+
+(* hence the exact round trip: HDKey(text, network=<exporting network>) returns every field AND the exporting row's
+   witness type and multisig flag, with no witness-type / multisig hint *)
+Theorem xkey_roundtrip_exact_metadata : forall fold wc oc n r depth child fp chain k0 kr mshint c,
+  In n all_networks -> In r (nw_prefixes_wif n) -> slip132_network (nw_name n) = true ->
+  is_legacy (wr_witness_type r) = false ->
+  0 <= depth < 256 -> 0 <= child < 2 ^ 32 -> length fp = 4%nat -> length chain = 32%nat -> row_key_ok oc r k0 kr ->
+  lib_hdkey_import fold wc oc (KStr (xkey_text r depth fp child chain (k0 :: kr))) (Some (nw_name n)) None mshint c =
+  Ok (xkey_obj (wr_private r) (row_key r k0 kr) c (nw_name n) chain depth fp child (wr_witness_type r) (wr_multisig r)).
+Proof. exact xkey_import_exact. Qed.
+
+Theorem xkey_roundtrip_exact_witness_legacy : forall fold wc oc n r depth child fp chain k0 kr mshint c,
+  In n all_networks -> In r (nw_prefixes_wif n) -> slip132_network (nw_name n) = true ->
+  0 <= depth < 256 -> 0 <= child < 2 ^ 32 -> length fp = 4%nat -> length chain = 32%nat -> row_key_ok oc r k0 kr ->
+  exists ms,
+  lib_hdkey_import fold wc oc (KStr (xkey_text r depth fp child chain (k0 :: kr))) (Some (nw_name n)) None mshint c =
+  Ok (xkey_obj (wr_private r) (row_key r k0 kr) c (nw_name n) chain depth fp child (wr_witness_type r) ms).
+Proof. exact xkey_import_exact_legacy. Qed.
+
+Theorem xkey_roundtrip_from_wif_exact_metadata : forall fold wc oc n r depth child fp chain k0 kr c,
+  In n all_networks -> In r (nw_prefixes_wif n) -> slip132_network (nw_name n) = true ->
+  is_legacy (wr_witness_type r) = false ->
+  0 <= depth < 256 -> 0 <= child < 2 ^ 32 -> length fp = 4%nat -> length chain = 32%nat -> row_key_ok oc r k0 kr ->
+  lib_hdkey_from_wif fold wc oc (xkey_text r depth fp child chain (k0 :: kr)) (Some (nw_name n)) None c =
+  Ok (xkey_obj (wr_private r) (row_key r k0 kr) c (nw_name n) chain depth fp child (wr_witness_type r) (wr_multisig r)).
+Proof. exact xkey_from_wif_exact. Qed.
+
+(* the frozen values themselves: signet / segwit / multisig / private is Vprv 02575048 and nothing else is; Uprv is
+   p2sh-segwit multisig *)
+Example slip132_signet_rows :
+  prefix_witness [x02; x57; x50; x48] = ["segwit"]%string /\ prefix_multisig [x02; x57; x50; x48] = [true] /\
+  prefix_networks [x02; x57; x50; x48] = ["testnet"; "testnet4"; "signet"]%string /\
+  prefix_witness [x02; x42; x85; xb5] = ["p2sh-segwit"]%string /\ prefix_multisig [x02; x42; x85; xb5] = [true] /\
+  (match find_network "signet"%string with
+   | Some n => lib_network_wif_prefix n true "segwit"%string true
+   | None => Err ENetwork
+   end) = Ok [x02; x57; x50; x48].
+Proof. exact KeyFormatSpecTable.slip132_signet_rows. Qed.
+
+(* the hypotheses of the exact round trip are satisfiable: 48 rows of the table meet them *)
+Example slip132_rows_exist :
+  length (filter (fun m => slip132_network (hm_network m) && negb (is_legacy (wr_witness_type (hm_row m)))) all_rows) = 48%nat /\
+  length all_rows = 116%nat.
+Proof. vm_compute. split; reflexivity. Qed.
+
+(* ================= several calls on one object ================= *)
+(* A Key / HDKey object is its visible fields (sstate: a keymeta and the current compressed attribute).  [session] runs
+   a list of calls — wif(prefix) / wif_key(prefix), HDKey.wif(is_private, child_index, prefix, witness_type, multisig)
+   with wif_private / wif_public as special cases, network_change, public(), address(compressed), as_hex, as_bytes, int,
+   encrypt — on ONE object.  The model keeps nothing between the calls but the fields: *)
+Theorem session_is_map_of_stateless_exports : forall pubser oc s ops,
+  session pubser oc s ops =
+  map (fun p => sop_answer pubser oc (fst p) (snd p)) (combine (session_states oc s ops) ops).
+Proof. exact session_is_map. Qed.
+
+(* the answer of a call depends on the calls before it only through the fields they leave behind *)
+Theorem session_answer_depends_on_fields_only : forall pubser oc s a op b d,
+  nth (length a) (session pubser oc s (a ++ op :: b)) d = sop_answer pubser oc (session_final oc s a) op.
+Proof. exact session_nth_answer. Qed.
+
+(* exports — with whatever explicit version bytes, witness type, multisig flag — do not touch the fields ... *)
+Theorem exports_leave_fields_unchanged : forall oc s ops,
+  forallb pure_export ops = true -> session_final oc s ops = s.
+Proof. exact pure_exports_keep_fields. Qed.
+
+(* ... so the next call answers as on a fresh object with the same fields (no stored text of an earlier export) *)
+Theorem export_after_exports_is_fresh : forall pubser oc s ops op rest d,
+  forallb pure_export ops = true ->
+  nth (length ops) (session pubser oc s (ops ++ op :: rest)) d = sop_answer pubser oc s op.
+Proof. exact export_after_pure_exports. Qed.
+
+Theorem wif_after_explicit_prefix_is_plain_wif : forall pubser oc s p,
+  session pubser oc s [SWif (Some p); SWif None] =
+  [AText (lib_wif_with oc (ss_wif_view s) (Some p)); AText (lib_wif oc (ss_wif_view s))].
+Proof. exact wif_after_explicit_prefix. Qed.
+
+Theorem wif_after_network_change_is_new_network : forall pubser oc s name,
+  network_defined name = true ->
+  session pubser oc s [SWif None; SNet name; SWif None] =
+  [AText (lib_wif oc (ss_wif_view s)); ADone (Ok tt); AText (lib_wif oc (km_set_network (ss_wif_view s) name))].
+Proof. exact wif_after_network_change. Qed.
+
+Theorem wif_after_address_follows_compressed_attribute : forall pubser oc s b,
+  session pubser oc s [SWif None; SAddr (Some b); SWif None] =
+  [AText (lib_wif oc (ss_wif_view s)); AComp b; AText (lib_wif oc (km_set_compressed (ss_km s) b))].
+Proof. exact wif_after_address_compressed. Qed.
+
+(* no call changes the public point, the construction-time compressed flag, chain code, depth, fingerprint, witness type
+   or multisig flag; the secret is unchanged until public() removes it *)
+Theorem session_keeps_key_material : forall oc s ops,
+  key_material (ss_km (session_final oc s ops)) = key_material (ss_km s).
+Proof. exact KeyFormatSession.session_keeps_key_material. Qed.
+
+Theorem session_keeps_secret : forall oc s ops,
+  km_private (ss_km (session_final oc s ops)) = true ->
+  km_private (ss_km s) = true /\ km_secret (ss_km (session_final oc s ops)) = km_secret (ss_km s).
+Proof. exact session_secret. Qed.
+
+(* the default calls are the exporters the round-trip theorems above are about *)
+Theorem wif_default_arguments : forall oc k, lib_wif_with oc k None = lib_wif oc k.
+Proof. exact lib_wif_with_default. Qed.
+
+Theorem xkey_default_arguments : forall pubser oc k want,
+  lib_xkey_with pubser oc k (Some want) None None None None = lib_xkey pubser oc k want.
+Proof. exact lib_xkey_with_default. Qed.
+
+Theorem xkey_own_values_as_arguments : forall pubser oc k want,
+  lib_xkey_with pubser oc k (Some want) (Some (km_child k)) None (Some (km_witness k)) (Some (km_multisig k)) =
+  lib_xkey pubser oc k want.
+Proof. exact lib_xkey_with_own_values. Qed.
+
+(* after ANY calls: while the object holds its secret, wif() / wif_key() imports back to the secret, the network the
+   object has now and the compressed attribute it has now, and is classified private *)
+Theorem session_wif_roundtrip : forall pubser oc fold k ops n,
+  let s := session_final oc (ss_init k) ops in
+  In n all_networks -> km_network (ss_km s) = nw_name n -> km_private (ss_km s) = true ->
+  length (km_secret k) = 32%nat -> 0 < of_be (km_secret k) < secp256k1_n ->
+  exists w,
+    nth (length ops) (session pubser oc (ss_init k) (ops ++ [SWif None])) (ADone (Ok tt)) = AText (Ok w) /\
+    (forall h c ip, network_defined h = true ->
+       lib_key_import fold true oc (KStr w) (Some h) c ip = Ok (wif_key_obj (km_secret k) (ss_compressed s) h)) /\
+    (forall ip, exists i, lib_get_key_format fold true (KStr w) ip = KfOk i /\ kf_private i = true /\
+                          kf_format i = if ss_compressed s then FWifCompressed else FWif).
+Proof. exact KeyFormatSession.session_wif_roundtrip. Qed.
+
+(* after ANY calls, wif_private() / wif_public() / wif() are the default exporter of the current fields: the theorems
+   xkey_export_is_row_text and xkey_roundtrip* apply to them *)
+Theorem session_xkey_is_stateless_export : forall pubser oc s ops want rest d,
+  nth (length ops) (session pubser oc s (ops ++ SXkey (Some want) None None None None :: rest)) d =
+  AText (lib_xkey pubser oc (ss_km (session_final oc s ops)) want).
+Proof. exact KeyFormatSession.session_xkey_is_stateless_export. Qed.
+
+(* non-vacuity, computed: litecoin version byte first, then the plain WIF (bitcoin), network_change('testnet'), WIF
+   (testnet), address(compressed=False), WIF (uncompressed), public(), WIF (refused); every WIF imported back *)
+Example session_concrete :
+  match session true (fun _ => true) (ss_init session_km)
+          [SWif (Some [xb0]); SWif None; SNet "testnet"%string; SWif None; SAddr (Some false); SWif None; SPublic; SWif None] with
+  | [AText (Ok w_ltc); AText (Ok w_btc); ADone (Ok tt); AText (Ok w_test); AComp false; AText (Ok w_unc); ADone (Ok tt);
+     AText (Err EKey)] =>
+      lib_key_import false true (fun _ => true) (KStr w_ltc) (Some "litecoin"%string) true None =
+        Ok (wif_key_obj (km_secret session_km) true "litecoin"%string) /\
+      lib_key_import false true (fun _ => true) (KStr w_btc) None true None =
+        Ok (wif_key_obj (km_secret session_km) true "bitcoin"%string) /\
+      lib_key_import false true (fun _ => true) (KStr w_test) None true None =
+        Ok (wif_key_obj (km_secret session_km) true "testnet"%string) /\
+      lib_key_import false true (fun _ => true) (KStr w_unc) None true None =
+        Ok (wif_key_obj (km_secret session_km) false "testnet"%string)
+  | _ => False
+  end.
+Proof. exact KeyFormatSession.session_concrete. Qed.
+
 Print Assumptions wif_roundtrip.
 Print Assumptions network_resolution_sound.
 Print Assumptions network_resolution_refusal.
@@ -317,3 +507,26 @@ Print Assumptions wif_version_never_starts_hd_prefix.
 Print Assumptions hd_prefix_shape.
 Print Assumptions never_cross_classified_bip38.
 Print Assumptions bip38_payloads_start_6P.
+Print Assumptions prefixes_wif_rows_are_frozen_spec.
+Print Assumptions wif_version_bytes_are_frozen_spec.
+Print Assumptions network_priorities_are_frozen_spec.
+Print Assumptions network_names_are_frozen_spec.
+Print Assumptions all_rows_are_frozen_rows.
+Print Assumptions slip132_prefix_determines_metadata.
+Print Assumptions xkey_roundtrip_exact_metadata.
+Print Assumptions xkey_roundtrip_exact_witness_legacy.
+Print Assumptions xkey_roundtrip_from_wif_exact_metadata.
+Print Assumptions session_is_map_of_stateless_exports.
+Print Assumptions session_answer_depends_on_fields_only.
+Print Assumptions exports_leave_fields_unchanged.
+Print Assumptions export_after_exports_is_fresh.
+Print Assumptions wif_after_explicit_prefix_is_plain_wif.
+Print Assumptions wif_after_network_change_is_new_network.
+Print Assumptions wif_after_address_follows_compressed_attribute.
+Print Assumptions session_keeps_key_material.
+Print Assumptions session_keeps_secret.
+Print Assumptions wif_default_arguments.
+Print Assumptions xkey_default_arguments.
+Print Assumptions xkey_own_values_as_arguments.
+Print Assumptions session_wif_roundtrip.
+Print Assumptions session_xkey_is_stateless_export.
